@@ -82,6 +82,7 @@ CHECKS['C01'] = dict(
     text='Every table of the bounded input/configuration space is written by the real writer into a memory file, opened by the real reader and iterated; the result must be the input sequence byte for byte. The space is built around the format\'s boundaries (empty key, prefixes, 0x00/0xff bytes, varint width changes at 128 and 16384, entries larger than a block, every block-cut position, every compression type and level class, restart cadence, foreign prefix), which the 15 tests touch at two shapes only.',
     jobs=[   # cheap jobs first: when the wall-clock budget ends, it is the big sweep that is cut short
         dict(name='level', spec=_TBL, args=['level']),
+        dict(name='separators-16bit', spec=_TBL, args=['sep16']),
         dict(name='madvise', spec=_TBL, args=['madvise']),
         dict(name='cadence', spec=_TBL, args=['cadence'], tools=['mtbl_dump']),
         dict(name='length', spec=_TBL, args=['length'], tools=['mtbl_dump']),
@@ -101,6 +102,7 @@ CHECKS['C09'] = dict(
     text='The same bounded space as C01; each file is parsed by a from-scratch decoder that shares no code with mtbl and checked against the format rules of the statement (contiguity, length prefix + CRC32C, index separators between last key and next first key, zero-padded 512-byte trailer with magic, restart validity and cadence, longest-common-prefix elision, the two-sided block size rule).',
     jobs=[
         dict(name='level', spec=_TBL, args=['level']),
+        dict(name='separators-16bit', spec=_TBL, args=['sep16']),
         dict(name='cadence', spec=_TBL, args=['cadence']),
         dict(name='length', spec=_TBL, args=['length']),
         dict(name='struct', spec=_TBL, args=['struct']),
@@ -132,7 +134,7 @@ CHECKS['C10'] = dict(
 CHECKS['C08'] = dict(
     level=MC, engine='seqx',
     technique='exhaustive enumeration of all key sequences with repetition up to a length bound through the real mtbl_writer_add, against a reference ordering gate; finished file decoded independently',
-    text='All sequences of length <=4 (thorough <=5) WITH repetition over 8 keys (empty key, prefix pairs, 0x7f/0x80, 0xffff) x every assignment of small/block-filling values (so refusals happen right before and after a block cut, where the writer temporarily remembers a shortened separator) are added; each add result must equal the reference gate "strictly greater than the last accepted key", and the file must hold exactly the accepted entries with trailer counters to match. mtbl_writer_init is run on existing empty/non-empty files, symlinks (live, dangling, to a directory) and directories.',
+    text='All sequences of length <=4 (thorough <=5) WITH repetition over 8 short keys (empty key, prefix pairs, 0x7f/0x80, 0xffff) and over a second pool of 8 keys of 4-5 bytes whose leading bytes span 0x00..0xff x every assignment of small/block-filling values (so refusals happen right before and after a block cut, where the writer temporarily remembers a shortened separator) are added; each add result must equal the reference gate "strictly greater than the last accepted key", and the file must hold exactly the accepted entries with trailer counters to match. mtbl_writer_init is run on existing empty/non-empty files, symlinks (live, dangling, to a directory) and directories.',
     jobs=[dict(name='gate', spec=H('h_gate.c', 'asan'), args=[])],
     states_key='cases', transitions_key='transitions', traces_key='cases',
     rule='one case = (key index sequence, small/big value vector, configuration); signature = (#blocks, #refused, #accepted)',
@@ -146,9 +148,10 @@ CHECKS['C08'] = dict(
 CHECKS['C02'] = dict(
     level=MC, engine='seqx',
     technique='bounded-exhaustive enumeration of (table, query) pairs on the real reader: get / get_prefix / get_range drained and compared with a filter of the reference table',
-    text='Tables: every ordered pair of the 31 strings of length<=2 over {00,01,7f,80,ff} with the block cut between them (so every branch of the shortest-separator computation produces an index key), every 3-subset of that universe x every small/block-filling value vector, and the K9 structure sweep. Queries: the whole universe plus predecessor/successor/prefix/extension neighbours of every stored key and of every index separator found by the independent decoder; ranges over all ordered AND reversed pairs of the reduced query set. The oracle is the filter of the sorted reference array.',
+    text='Tables: every ordered pair of the 31 strings of length<=2 over {00,01,7f,80,ff} with the block cut between them, plus every pair of the 320 strings of length 3-4 over {00,01,fe,ff} whose first differing bytes are adjacent (the 16-bit big-endian branch of the shortest-separator computation, with and without carry), so that every branch of that computation produces an index key, every 3-subset of that universe x every small/block-filling value vector, and the K9 structure sweep. Queries: the whole universe plus predecessor/successor/prefix/extension neighbours of every stored key and of every index separator found by the independent decoder; ranges over all ordered AND reversed pairs of the reduced query set. The oracle is the filter of the sorted reference array.',
     jobs=[
         dict(name='separators', spec=H('h_lookup.c', 'asan'), args=['sep']),
+        dict(name='separators-16bit', spec=H('h_lookup.c', 'asan'), args=['sep16']),
         dict(name='subsets', spec=H('h_lookup.c', 'asan'), args=['sets']),
         dict(name='k9', spec=H('h_lookup.c', 'asan'), args=['k9']),
     ],
@@ -188,14 +191,15 @@ CHECKS['C04'] = dict(
     jobs=[
         dict(name='drain', spec=_MRG, args=['drain']),
         dict(name='failing-callback', spec=_MRG, args=['fail']),
+        dict(name='many-sources', spec=_MRG, args=['many']),
         dict(name='source-write', spec=_MRG, args=['srcwrite']),
         dict(name='mtbl_merge-tool', spec=_MRG, args=['tool'], tools=['mtbl_merge'], dsos=['fold_dso']),
     ],
     states_key='states', transitions_key='transitions', traces_key='executions',
     rule='one case = (source family, source kinds, merge on/off, dupsort on/off[, failing key, nth]); signature = (options, k, number of sources holding each key, kinds)',
-    bounds={'quick': 'k<=3 sources x 16 subsets each x 4 source-kind assignments x 4 option combinations; failing callback: every key with >=2 holders x every invocation index',
+    bounds={'quick': 'k<=3 sources x 16 subsets each x 6 source-kind assignments x option combinations; failing callback: every key with >=2 holders x every invocation index x 2 failure styles; 5-8 sources: ALL permutations of their first keys in add order (46 200 orders), with and without merge function',
             'thorough': 'k<=4 sources'},
-    nonzero=['states', 'drains_with_merging', 'drains_with_empty_key', 'drains_with_duplicate_keys_in_one_source', 'failing_callback_runs', 'source_write_runs', 'tool_runs'],
+    nonzero=['states', 'drains_with_merging', 'drains_with_empty_key', 'drains_with_duplicate_keys_in_one_source', 'failing_callback_runs', 'source_write_runs', 'tool_runs', 'many_source_drains'],
     assumptions=['order among equal keys without dupsort is unspecified and not checked', 'after a failed merge nothing further is checked (the statement fixes only that call)'],
     budget={'quick': 300, 'thorough': 1800},
 )
@@ -351,7 +355,7 @@ _FS = H('h_fileset.c', 'asan', exclude=['mtbl/fileset.c', 'libmy/my_fileset.c', 
 CHECKS['C07'] = dict(
     level=MC, engine='bfs',
     technique='explicit-state breadth-first search over histories of the real fileset (two handles sharing one fileset, real setfile and table files on tmpfs, harness-owned monotonic clock): states deduplicated by a canonical hash of the private fileset fields plus the reference state; oracle = interval of setfile versions the view may legitimately reflect; AddressSanitizer over every history',
-    text='Alphabet: rewrite the setfile to one of five versions (one with a missing and a non-table file, one with an absolute path), advance the clock by 1 s or interval+1 s (each also in a variant whose nanosecond part restarts below every earlier reading), and for handles A and B=dup(A, filename/reader filter): reload, reload_now, open an iterator, step it, close it, observe (open+drain+close), plus destroy(A). Configurations: reload intervals {2, 0, NEVER} per handle, merge function on/off, cold and warm start. After every open the content (decoded to the set of files it merges) must equal the filtered merge of SOME setfile version between the one current at the latest mandatory reload point (initial load, reload_now, deferred reload_now, interval expired since the last moment a reload could have happened) and the one current at the last moment a reload could have happened at all; never older, and fixed while any iterator is open. Kept iterators must return their original snapshot step by step whatever happens in between.',
+    text='Alphabet: rewrite the setfile to one of six versions (one with a missing and a non-table file, one with an absolute path, one that still lists a previously loaded file which has meanwhile been deleted from disk), advance the clock by 1 s or interval+1 s (each also in a variant whose nanosecond part restarts below every earlier reading), and for handles A and B=dup(A, filename/reader filter): reload, reload_now, open an iterator, step it, close it, observe (open+drain+close), plus destroy(A). Configurations: reload intervals {2, 0, NEVER} per handle, merge function on/off, cold and warm start. After every open the content (decoded to the set of files it merges) must equal the filtered merge of SOME setfile version between the one current at the latest mandatory reload point (initial load, reload_now, deferred reload_now, interval expired since the last moment a reload could have happened) and the one current at the last moment a reload could have happened at all; never older, and fixed while any iterator is open. Kept iterators must return their original snapshot step by step whatever happens in between.',
     jobs=[dict(name='fileset-bfs', spec=_FS, args=lambda tier: ['7' if tier == 'thorough' else '5'])],
     states_key='states', transitions_key='transitions', traces_key='executions',
     rule='a state = canonical hash of (shared fileset counters and stamps, my_fileset entries, per-handle stamp equality and merger sources, open iterators, reference interval, capped clock ages); signature = (configuration, first operation)',
